@@ -1,3 +1,4 @@
+import re
 """Ties that do not go through the line protocol: rustc as the oracle (C13 layout assertions, C16
 borrow / lifetime / auto-trait verdicts) and a native slice differential (C15)."""
 import os, glob, json, subprocess, concurrent.futures, itertools, hashlib
@@ -57,6 +58,33 @@ C13_TYPES = ["u8", "u16", "u32", "u64", "u128", "usize", "f32", "f64", "bool", "
              "Option<Box<u8>>", "std::rc::Rc<u8>", "std::sync::Arc<u8>", "fn(u8) -> u8", "*const u8", "core::cell::Cell<u8>",
              "A16", "A64", "A4096", "MiniVec<u8>", "Option<MiniVec<u8>>", "core::num::NonZeroU8", "Big"]
 
+CFG_BUILTIN = {"not", "any", "all", "feature", "test", "doc", "doctest", "debug_assertions", "panic", "unix", "windows",
+               "target_os", "target_arch", "target_family", "target_env", "target_endian", "target_pointer_width", "target_feature",
+               "target_has_atomic", "target_vendor", "target_abi", "overflow_checks", "proc_macro", "version", "accessible", "true", "false"}
+
+def cfg_names():
+    """bare names used inside `cfg(..)`, `cfg!(..)` and `cfg_attr(..)` anywhere in the crate's sources"""
+    names = set()
+    files = glob.glob(REPO + "/src/**/*.rs", recursive=True) + glob.glob(REPO + "/build.rs")
+    for f in files:
+        try:
+            txt = open(f, errors="replace").read()
+        except OSError:
+            continue
+        for m in re.finditer(r"\bcfg(?:_attr)?\s*!?\s*\(", txt):
+            depth, j = 1, m.end()
+            while j < len(txt) and depth:
+                depth += {"(": 1, ")": -1}.get(txt[j], 0)
+                j += 1
+            inner = txt[m.end():j - 1]
+            if m.group(0).lstrip().startswith("cfg_attr"):
+                inner = inner.split(",", 1)[0]          # only the predicate of a cfg_attr
+            inner = re.sub(r'"[^"]*"', '""', inner)
+            for w in re.findall(r"[A-Za-z_][A-Za-z0-9_]*", inner):
+                if w not in CFG_BUILTIN:
+                    names.add(w)
+    return sorted(names)
+
 def c13(tier, seed):
     d = workdir("c13")
     src = ["#![allow(dead_code)]", "use minivec::MiniVec;", "use core::mem::{size_of, align_of};",
@@ -86,6 +114,10 @@ def c13(tier, seed):
                ("size-opt", ["-C", "opt-level=s", "-C", "overflow-checks=on"])]
     if serde:
         configs.append(("serde-feature", ["--cfg", 'feature="serde"', "--extern", "serde=" + serde[-1], "-L", "dependency=" + DEPS]))
+    # every cfg name the crate's own source (or build script) mentions gets a configuration in which it is set: a layout
+    # that depends on a cfg the usual builds never set (miri, loom, fuzzing, a private knob) is still a layout of the crate
+    for name in cfg_names():
+        configs.append(("cfg-" + name, ["--cfg", name]))
     built = []
     for name, flags in configs:
         lib = "%s/libminivec_%s.rlib" % (d, name.replace("-", "_"))
@@ -94,7 +126,15 @@ def c13(tier, seed):
         if p1.returncode != 0:
             viol.append({"signature": "c13-build-" + name, "concrete": False, "payload": {"what": "the crate does not compile in configuration " + name, "stderr": p1.stderr[-400:]}})
             continue
-        tflags = [f for f in flags if not f.startswith("feature=") and f != "--cfg" and not f.startswith("serde=") and f != "--extern"]
+        # flags that also apply to the program compiled against the library: everything except `--cfg X` / `--extern Y`
+        tflags, skip = [], False
+        for f in flags:
+            if skip:
+                skip = False
+            elif f in ("--cfg", "--extern"):
+                skip = True
+            else:
+                tflags.append(f)
         built.append((name, " ".join(flags), lib, tflags))
     # ... and as cargo builds it (so that a build script, profile settings and RUSTFLAGS take part): dev, release, release
     # with debug info, dev at opt-level 1, release for the native CPU, and with panic = "abort"
@@ -188,6 +228,22 @@ TUPLE_PROGS = [
     ("splice-outlives-use", False, "use minivec::{MiniVec, mini_vec};\npub fn f() { let mut v: MiniVec<i32> = mini_vec![1, 2]; let s = v.splice(.., [9]); let _ = v.len(); drop(s); }\n"),
     ("drain-filter-outlives-use", False, "use minivec::{MiniVec, mini_vec};\npub fn f() { let mut v: MiniVec<i32> = mini_vec![1, 2]; let s = v.drain_filter(|x| *x > 1); v.push(3); drop(s); }\n"),
     ("drain-outlives-vec", False, "use minivec::{MiniVec, mini_vec};\npub fn f() { let d; { let mut v: MiniVec<i32> = mini_vec![1, 2]; d = v.drain(..); } drop(d); }\n"),
+]
+
+THREAD_PROGS = [
+    # the two draining iterators the property does not name own (Splice) or exclusively borrow (DrainFilter) the elements all
+    # the same: handing them to, or sharing them with, another thread moves / shares the elements
+    ("send-splice-rc", False, "use minivec::{MiniVec, mini_vec};\nuse std::rc::Rc;\npub fn f() { let mut v: MiniVec<Rc<i32>> = mini_vec![Rc::new(1), Rc::new(2)]; let s = v.splice(.., std::iter::empty()); std::thread::scope(|sc| { sc.spawn(move || { let _o = s; }); }); }\n"),
+    ("share-splice-cell", False, "use minivec::{MiniVec, mini_vec};\nuse std::cell::Cell;\npub fn f() { let mut v: MiniVec<Cell<i32>> = mini_vec![Cell::new(1)]; let s = v.splice(.., std::iter::empty()); let r = &s; std::thread::scope(|sc| { sc.spawn(move || { let _o = r; }); }); }\n"),
+    ("send-drain-filter-rc", False, "use minivec::{MiniVec, mini_vec};\nuse std::rc::Rc;\npub fn f() { let mut v: MiniVec<Rc<i32>> = mini_vec![Rc::new(1), Rc::new(2)]; let s = v.drain_filter(|_| true); std::thread::scope(|sc| { sc.spawn(move || { let _o = s; }); }); }\n"),
+    ("send-mut-ref-rc", False, "use minivec::{MiniVec, mini_vec};\nuse std::rc::Rc;\npub fn f() { let mut v: MiniVec<Rc<i32>> = mini_vec![Rc::new(1)]; let r = &mut v; std::thread::scope(|sc| { sc.spawn(move || { r.clear(); }); }); }\n"),
+    # the legitimate twins: element types that are thread-safe but BORROW (not 'static) move and share like any other
+    ("send-borrowed-vec-ok", True, "use minivec::MiniVec;\npub fn f() { let words = String::from(\"a b c\"); let v: MiniVec<&str> = words.split(' ').collect(); std::thread::scope(|sc| { sc.spawn(move || v.len()); }); }\n"),
+    ("share-borrowed-vec-ok", True, "use minivec::MiniVec;\npub fn f() { let words = String::from(\"a b c\"); let v: MiniVec<&str> = words.split(' ').collect(); let r = &v; std::thread::scope(|sc| { sc.spawn(move || r.len()); sc.spawn(move || r.len()); }); }\n"),
+    ("send-borrowed-into-iter-ok", True, "use minivec::MiniVec;\npub fn f() { let data = [1u64, 2, 3]; let v: MiniVec<&u64> = data.iter().collect(); let it = v.into_iter(); std::thread::scope(|sc| { sc.spawn(move || it.count()); }); }\n"),
+    ("send-borrowed-drain-ok", True, "use minivec::MiniVec;\npub fn f() { let data = [1u64, 2, 3]; let mut v: MiniVec<&u64> = data.iter().collect(); let d = v.drain(..); std::thread::scope(|sc| { sc.spawn(move || d.count()); }); }\n"),
+    ("send-mut-ref-borrowed-ok", True, "use minivec::MiniVec;\nuse std::borrow::Cow;\npub fn f() { let s = String::from(\"x\"); let mut v: MiniVec<Cow<'_, str>> = MiniVec::new(); v.push(Cow::Borrowed(&s)); let r = &mut v; std::thread::scope(|sc| { sc.spawn(move || r.clear()); }); }\n"),
+    ("send-static-spawn-ok", True, "use minivec::{MiniVec, mini_vec};\npub fn f() { let v: MiniVec<String> = mini_vec![String::new()]; std::thread::spawn(move || v.len()).join().unwrap(); }\n"),
 ]
 
 LIFETIME_PROGS = [
@@ -291,7 +347,7 @@ def c16(tier, seed):
         path = "%s/t%d.rs" % (d, j)
         open(path, "w").write(render_thread(h, m, k))
         jobs.append((path, verdicts[len(progs) + j], "%s %s %s" % (m, h, k)))
-    for name, must_compile, src in LIFETIME_PROGS + TUPLE_PROGS:
+    for name, must_compile, src in LIFETIME_PROGS + TUPLE_PROGS + THREAD_PROGS:
         path = "%s/l-%s.rs" % (d, name)
         open(path, "w").write(src)
         jobs.append((path, "accept" if must_compile else "reject", name))
@@ -409,8 +465,61 @@ fn check_cmp_only<T: Clone + Ord + std::fmt::Debug>(a: &[T], b: &[T], n: &mut u6
   let e = (a.cmp(b), a.partial_cmp(b), a.to_vec().max(b.to_vec()) == b.to_vec());
   match r { Ok(r) if r == e => {}, Ok(r) => bad.push(format!("cmp-vs-partial_cmp {:?} {:?}: {:?} instead of {:?}", a, b, r, e)), Err(_) => bad.push(format!("cmp-panics {:?} {:?}", a, b)) }
 }
+/// two element types whose cross comparisons depend on the DIRECTION and are counted: `[L] == [R]` asks `L::eq(&l, &r)` once
+/// per pair when the lengths agree (until the first difference) and asks NOTHING when they differ; every offered operand
+/// combination of a `MiniVec` must give the slice's answer by making the slice's calls
+use std::sync::atomic::{AtomicU64, Ordering as AO};
+static LR: AtomicU64 = AtomicU64::new(0);
+static RL: AtomicU64 = AtomicU64::new(0);
+#[derive(Clone, Debug)] struct L(u8);
+#[derive(Clone, Debug)] struct Rr(u8);
+impl PartialEq<Rr> for L { fn eq(&self, o: &Rr) -> bool { LR.fetch_add(1, AO::SeqCst); self.0 == o.0 } }
+impl PartialEq<L> for Rr { fn eq(&self, o: &L) -> bool { RL.fetch_add(1, AO::SeqCst); self.0 / 2 == o.0 / 2 } }
+fn probe(f: impl FnOnce() -> bool) -> (bool, u64, u64) {
+  LR.store(0, AO::SeqCst); RL.store(0, AO::SeqCst);
+  let r = f();
+  (r, LR.load(AO::SeqCst), RL.load(AO::SeqCst))
+}
+fn check_directed(a: &[u8], b: &[u8], n: &mut u64, bad: &mut Vec<String>) {
+  let la: Vec<L> = a.iter().map(|x| L(*x)).collect();
+  let rb: Vec<Rr> = b.iter().map(|x| Rr(*x)).collect();
+  let (vl, vr): (MiniVec<L>, MiniVec<Rr>) = (MiniVec::from(&la[..]), MiniVec::from(&rb[..]));
+  let want = probe(|| la[..] == rb[..]);
+  let want_ne = probe(|| la[..] != rb[..]);
+  let mut la2 = la.clone(); let mut rb2 = rb.clone();
+  let got: Vec<(&str, (bool, u64, u64), (bool, u64, u64))> = vec![
+    ("MiniVec<L> == MiniVec<R>", probe(|| vl == vr), want),
+    ("MiniVec<L> != MiniVec<R>", probe(|| vl != vr), want_ne),
+    ("MiniVec<L> == [R]", probe(|| vl == rb[..]), want),
+    ("MiniVec<L> == &[R]", probe(|| vl == &rb[..]), want),
+    ("MiniVec<L> != &[R]", probe(|| vl != &rb[..]), want_ne),
+    ("MiniVec<L> == &mut [R]", probe(|| vl == &mut rb2[..]), want),
+    ("&[L] == MiniVec<R>", probe(|| &la[..] == vr), want),
+    ("&[L] != MiniVec<R>", probe(|| &la[..] != vr), want_ne),
+    ("&mut [L] == MiniVec<R>", probe(|| &mut la2[..] == vr), want),
+    ("MiniVec<L> == Vec<R>", probe(|| vl == rb), want),
+  ];
+  for (what, g, w) in got {
+    *n += 1;
+    if g != w { bad.push(format!("directed {} on {:?} {:?}: (answer, L::eq calls, R::eq calls) = {:?}, the slices give {:?}", what, a, b, g, w)); }
+  }
+  if b.len() == 3 {
+    let arr: [Rr; 3] = [rb[0].clone(), rb[1].clone(), rb[2].clone()];
+    for (what, g) in [("MiniVec<L> == [R; 3]", probe(|| vl == arr)), ("MiniVec<L> == &[R; 3]", probe(|| vl == &arr))] {
+      *n += 1;
+      if g != want { bad.push(format!("directed {} on {:?} {:?}: {:?}, the slices give {:?}", what, a, b, g, want)); }
+    }
+  }
+}
 fn main() {
   std::panic::set_hook(Box::new(|_| {}));
+  for a in [&[][..], &[1u8][..], &[2, 3], &[2, 3, 4], &[2, 3, 5], &[3, 3, 4], &[2, 3, 4, 5]] {
+    for b in [&[][..], &[1u8][..], &[0], &[2, 3], &[3, 2], &[2, 3, 4], &[2, 2, 4], &[2, 3, 4, 5], &[9, 3, 4]] {
+      let (mut n0, mut bad0) = (0u64, vec![]);
+      check_directed(a, b, &mut n0, &mut bad0);
+      if !bad0.is_empty() { for b in bad0.iter().take(3) { println!("MISMATCH {}", b); } std::process::exit(1); }
+    }
+  }
   let seed: u64 = std::env::args().nth(1).and_then(|s| s.parse().ok()).unwrap_or(1);
   let rounds: usize = std::env::args().nth(2).and_then(|s| s.parse().ok()).unwrap_or(100);
   let mut r = R(seed); let mut n = 0u64; let mut bad = vec![];
@@ -474,4 +583,29 @@ def c15(tier, seed):
     cov = {"evaluations": n, "distinct_nontrivial": n, "traces_validated_against_impl": n if not viol else 0,
            "rule": "seeded pairs of element sequences (f64 incl. NaN/-0.0/inf, i64, String, i8 with negatives, Reverse<u8>, u8, a type whose Ord is the reverse of its PartialOrd, a float wrapper ordered by total_cmp; equal, prefix-related, differing at one position, empty), each held in 6 vectors with different histories/capacities/alignments; every operator, the Hasher call sequence, Hash::hash_slice over vectors, nested vectors (hash and order) and HashMap/BTreeMap lookup by slice compared with the slice result; each (pair, variant a, variant b) counted once",
            "samples": [out[:200]]}
+    return viol, cov
+
+
+def mutcb(tier, seed):
+    """callbacks that WRITE through the `&mut T` they are handed (drain_filter, dedup_by, dedup_by_key): MiniVec against
+    the reference on every scripted callback over small vectors (harness/src/mutcb.rs), both profiles"""
+    import run as RUN
+    viol = []
+    n = 0
+    for mode in ("debug", "release"):
+        p = subprocess.run([RUN.harness_bin(mode), "--mutcb"], capture_output=True, text=True, errors="replace")
+        tot = [l for l in p.stdout.split("\n") if l.startswith("MUTCB ")]
+        if tot:
+            n += int(tot[-1].split()[1])
+        mism = [l for l in p.stdout.split("\n") if l.startswith("MISMATCH ")]
+        for l in mism[:4]:
+            scen, what = l[9:].split(" :: ", 1)
+            viol.append({"signature": "mutcb-" + scen.split()[0], "concrete": True,
+                         "payload": {"what": "a callback that writes through its `&mut T` argument: MiniVec and the reference disagree (yields / contents by identity / destructor runs per element)",
+                                     "profile": mode, "scenario": scen, "observed": what[:1500], "replay": "build/harness-target/%s/harness --mutcb" % mode}})
+        if not tot or (p.returncode not in (0, 1)):
+            viol.append({"signature": "mutcb-crash", "concrete": True,
+                         "payload": {"what": "the mutating-callback battery did not finish", "profile": mode, "rc": p.returncode, "stdout": p.stdout[-600:], "stderr": p.stderr[-600:]}})
+    cov = {"evaluations": n, "distinct_nontrivial": n, "traces_validated_against_impl": n if not viol else 0,
+           "mutating_callback_scenarios": n}
     return viol, cov
